@@ -377,6 +377,12 @@ func TestExample(t *testing.T) {
 			default:
 				c = Case{Spec: lib.Spec{Schema: root, Types: []lib.Named{pet}}}
 			}
+			if rapid.Bool().Draw(t, "innerLate") {
+				// the inner types are added after their host has been added to the root
+				for i := range c.Spec.Types {
+					c.Spec.Types[i].InnerLate = true
+				}
+			}
 			feature = true
 			run.Label("family:types-known-through-types")
 		case 7: // many expansions of user types in one example: wide objects, sheets, families of types
